@@ -23,7 +23,9 @@ def _fixed_unitary(d, salt):
     return Q * ph
 
 
-CUSTOM_NUMERIC = {"custom1": _fixed_unitary(2, 0.0), "custom2": _fixed_unitary(4, 1.0), "custom3": _fixed_unitary(8, 2.0)}
+CUSTOM_NUMERIC = {"custom1": _fixed_unitary(2, 0.0), "custom2": _fixed_unitary(4, 1.0), "custom3": _fixed_unitary(8, 2.0),
+                  # complex-SYMMETRIC but not Hermitian (transpose == itself, adjoint != itself): user-defined S-like and ISWAP-like gates
+                  "customsym1": np.array([[1, 0], [0, 1j]]), "customsym2": np.array([[1, 0, 0, 0], [0, 0, 1j, 0], [0, 1j, 0, 0], [0, 0, 0, np.exp(0.3j)]])}
 
 
 @lru_cache(maxsize=None)
@@ -109,7 +111,7 @@ def arity(d):
     n = d["g"]
     if n == "named":
         return 1
-    if n in ("custom2", "custom2p", "CNOT", "CZ", "SWAP", "ISWAP", "CPHASE", "XX", "YY", "ZZ", "XY", "MS"):
+    if n in ("custom2", "customsym2", "custom2p", "CNOT", "CZ", "SWAP", "ISWAP", "CPHASE", "XX", "YY", "ZZ", "XY", "MS"):
         return 2
     if n == "custom3":
         return 3
